@@ -906,10 +906,8 @@ def dgrad(v, x, ctr):
         return [f * t for t in g]
     co, cc = clampdot(x, ctr)
     s2 = 1.0 - co * co
-    if co > 0.0 and s2 < 1e-28:
+    if s2 < 1e-28:          # coincident or exactly opposite: the null vector (colvarvalue::dist2_grad)
         return [0.0, 0.0, 0.0]
-    if s2 <= 0.0:
-        return [float("nan")] * 3
     k = 2.0 * math.acos(cc) * -1.0 / math.sqrt(s2)
     return [k * t for t in ctr]
 
